@@ -317,3 +317,36 @@ def blist(b):
 
 def log(*a):
     print(*a, file=sys.stderr, flush=True)
+
+
+def run_apalache(module, init, inv, length, cwd=SPEC, timeout=240):
+    """One Apalache obligation; returns 'NoError', 'Error' (counterexample / failure) or 'unavailable'."""
+    out_dir = new_run_dir('apa')
+    try:
+        p = subprocess.run(['apalache-mc', 'check', f'--init={init}', f'--inv={inv}', f'--length={length}', f'--out-dir={out_dir}',
+                            f'--run-dir={out_dir}', module], cwd=cwd, stdout=subprocess.PIPE, stderr=subprocess.STDOUT, text=True, timeout=timeout)
+        if 'The outcome is: NoError' in p.stdout:
+            return 'NoError'
+        if 'The outcome is: Error' in p.stdout or 'violat' in p.stdout.lower():
+            return 'Error'
+        return 'unavailable'
+    except (OSError, subprocess.TimeoutExpired):
+        return 'unavailable'
+    finally:
+        rm_run_dir(out_dir)
+        shutil.rmtree(os.path.join(cwd, '_apalache-out'), ignore_errors=True)
+
+
+def apalache_cached(name, module, obligations):
+    os.makedirs(CACHE, exist_ok=True)
+    key = hashlib.sha256((spec_digest() + module + json.dumps(obligations)).encode()).hexdigest()[:24]
+    path = os.path.join(CACHE, f'apalache-{name}-{key}.json')
+    if os.environ.get('VERIF_NOCACHE') != '1' and os.path.exists(path):
+        with open(path) as f:
+            return json.load(f)
+    res = [{'init': i, 'inv': v, 'length': n, 'outcome': run_apalache(module, i, v, n)} for (i, v, n) in obligations]
+    if all(r['outcome'] != 'unavailable' for r in res):
+        with open(path, 'w') as f:
+            json.dump(res, f)
+    return res
+
